@@ -217,7 +217,7 @@ def effective_feature_names(case):
         if not spec:
             continue
         kind = spec["kind"]
-        if kind in ("dataframe", "dict", "dict_series", "series"):
+        if kind in ("dataframe", "dict", "dict_series", "series", "series_categorical", "dataframe_categorical"):
             out.extend(spec["names"])
         else:
             out.extend(f"{base}{i}" for i in range(len(spec["cols"])))
